@@ -98,6 +98,7 @@ fn gen_model(w: &mut Tape, syn: Syntax, all_undefined: bool) -> Vec<ds::Elem> {
         latin1: cs == 1,
         utf8: cs == 2,
         other_cs: if cs >= 3 { cs as u8 } else { 0 },
+        nested_charset: true,
         ..Default::default()
     };
     let s = ds::gen_dataset(w, &cfg);
@@ -130,6 +131,12 @@ fn probes_for(env: &EnvRef, m: &[ds::Elem]) {
             ds::Val::Seq { items, .. } => items.iter().any(|i| non_ascii(&i.elems)),
             _ => false,
         })
+    }
+    fn nested_cs(m: &[ds::Elem], depth: u32) -> bool {
+        m.iter().any(|e| (depth > 0 && e.tag == (0x0008, 0x0005)) || matches!(&e.val, ds::Val::Seq { items, .. } if items.iter().any(|i| nested_cs(&i.elems, depth + 1))))
+    }
+    if nested_cs(m, 0) {
+        env.probe("nested-character-set");
     }
     if non_ascii(m) {
         match m.iter().find(|e| e.tag == (0x0008, 0x0005)).map(|e| &e.val) {
@@ -358,12 +365,17 @@ fn run_c04(cfg: usize, w: &mut Tape, env: &EnvRef) -> RunResult {
             let model = model_items_undef(&gen_model(w, syn, false));
             let obj = build_object(&model, syn);
             let uid_odd = w.chance(1, 2);
-            let meta = FileMetaTableBuilder::new()
-                .media_storage_sop_class_uid(if uid_odd { "1.2.840.10008.5.1.4.1.1.7" } else { "1.2.840.10008.5.1.4.1.1.2" })
-                .media_storage_sop_instance_uid(if w.chance(1, 2) { "1.2.3.4.5" } else { "1.2.3.4.55" })
-                .transfer_syntax(syn.uid())
-                .build()
-                .map_err(|e| harness(format!("meta: {}", e)))?;
+            let meta = if w.chance(1, 2) {
+                // every optional attribute of the group by the seed (the table generator of C09)
+                crate::checks::c09::gen_table(w, env, syn.uid())?
+            } else {
+                FileMetaTableBuilder::new()
+                    .media_storage_sop_class_uid(if uid_odd { "1.2.840.10008.5.1.4.1.1.7" } else { "1.2.840.10008.5.1.4.1.1.2" })
+                    .media_storage_sop_instance_uid(if w.chance(1, 2) { "1.2.3.4.5" } else { "1.2.3.4.55" })
+                    .transfer_syntax(syn.uid())
+                    .build()
+                    .map_err(|e| harness(format!("meta: {}", e)))?
+            };
             let file = obj.with_exact_meta(meta);
             let mut sink = seg_sink(env);
             if let Err(e) = file.write_all(&mut sink) {
@@ -433,6 +445,7 @@ fn run_c04(cfg: usize, w: &mut Tape, env: &EnvRef) -> RunResult {
                                     latin1: false,
                                     utf8: false,
                                     other_cs: 0,
+                                    nested_charset: false,
                                 };
                                 let m = ds::gen_dataset(&mut t2, &cfgm);
                                 m.into_iter().find(|x| matches!(x.val, ds::Val::Prim(_)))
